@@ -177,7 +177,7 @@ def check_tables(fx, R):
         return
     R.used(f)
     T = mat.fresh('T', 3, 1)
-    g2 = sym.State()
+    g2 = md['ctor_state'].copy()
     DX, DY, DZ = mat.fresh('dRdAngleX_', 3, 3), mat.fresh('dRdAngleY_', 3, 3), mat.fresh('dRdAngleZ_', 3, 3)
     g2.fields[('this', 'dRdAngleX_')], g2.fields[('this', 'dRdAngleY_')], g2.fields[('this', 'dRdAngleZ_')] = DX, DY, DZ
     try:
